@@ -4,17 +4,30 @@ import (
 	"fmt"
 	"sort"
 	"strings"
+
+	defaultrolemanager "github.com/casbin/casbin/v2/rbac/default-role-manager"
 )
 
 func init() { registry["C16"] = runC16 }
 
 // c16Case builds one enforcer from (links, rules) and compares every listing API with the model and
 // — on the implementation itself — with Enforce / HasLink.
+var c16Variant int
+
 func c16Case(c *Ctx, name string, domains bool, links [][]string, rules [][]string, names []string, doms []string, perms [][]string) {
 	ms := rbacSpec(domains, false)
 	s := StartCase(c, ms, CaseOpts{})
 	if s == nil {
 		return
+	}
+	// set-up variants (chosen by the case counter, so every family sees all of them): 0 = one batch;
+	// 1 = a fresh default role manager installed with SetRoleManager before any link is added (Enforce's g()
+	// and the listings must still walk the same graph); 2 = every link removed and added again one by one
+	// after the batch (the graph is the same, whatever the role manager did with names in between)
+	variant := c16Variant % 3
+	c16Variant++
+	if variant == 1 && !domains {
+		s.E.SetRoleManager(defaultrolemanager.NewRoleManagerImpl(10))
 	}
 	if len(links) > 0 {
 		s.Do(c, EOp{Kind: "adds", Sec: "g", PType: "g", Ex: true, Rules: links})
@@ -22,6 +35,13 @@ func c16Case(c *Ctx, name string, domains bool, links [][]string, rules [][]stri
 	if len(rules) > 0 {
 		s.Do(c, EOp{Kind: "adds", Sec: "p", PType: "p", Ex: true, Rules: rules})
 	}
+	if variant == 2 {
+		for i := len(links) - 1; i >= 0; i-- {
+			s.Do(c, EOp{Kind: "rm", Sec: "g", PType: "g", Rule: links[i]})
+			s.Do(c, EOp{Kind: "add", Sec: "g", PType: "g", Rule: links[i]})
+		}
+	}
+	name = fmt.Sprintf("%s/setup=%d", name, variant)
 	e := s.E
 	rm := e.GetRoleManager()
 	dlist := [][]string{{}}
